@@ -194,7 +194,13 @@ def pydantic_diff(rng):
         try:
             return "ok", _dict_of(cls(**kw))
         except ValueError as e:          # pydantic.ValidationError is a ValueError
-            return "ValueError", None
+            loc = None
+            if hasattr(e, "errors"):
+                try:
+                    loc = tuple(e.errors()[0]["loc"])          # field validators: (field,), model validators: ()
+                except Exception:
+                    loc = "?"
+            return "ValueError", (type(e).__name__, loc)
         except Exception as e:
             return type(e).__name__, None
 
@@ -209,6 +215,8 @@ def pydantic_diff(rng):
             pydlite.uninstall()
         if real[0] != lite[0]:
             fails.append(("pydantic-exc", cls.__name__, repr(kw)[:200], real[0], lite[0]))
+        elif real[0] == "ValueError" and real[1] != lite[1]:
+            fails.append(("pydantic-error-location", cls.__name__, repr(kw)[:200], real[1], lite[1]))
         elif real[0] == "ok" and real[1] != lite[1]:
             fails.append(("pydantic-fields", cls.__name__, repr(kw)[:200], repr(real[1])[:200], repr(lite[1])[:200]))
     return count, fails
